@@ -22,7 +22,7 @@ pub const INFO: PropInfo = PropInfo {
         "requests whose routing outcome is ambiguous under C01's two readings are not judged here",
         "when the innermost participant on a 404 is a FangAction (which cannot see the request on the way out) only the outbound trace is compared",
     ],
-    expected_probes: &["c04.handler_with_local_fangs", "c04.miss_inside_mount", "c04.miss_outside_mounts", "c04.stopped", "c04.three_apps_on_chain", "c04.yielding_fang_ran", "c04.single_child_mount", "c04.fang_only_mounted_app", "c04.request_under_a_mount_prefix_with_fang_only_app"],
+    expected_probes: &["c04.handler_with_local_fangs", "c04.miss_inside_mount", "c04.miss_outside_mounts", "c04.stopped", "c04.three_apps_on_chain", "c04.yielding_fang_ran", "c04.single_child_mount", "c04.fang_only_mounted_app", "c04.request_under_a_mount_prefix_with_fang_only_app", "c04.another_application_lived_earlier"],
 };
 
 #[derive(Clone, Debug, Serialize, Deserialize)]
@@ -36,6 +36,30 @@ pub struct Req {
 pub struct Scenario {
     pub app: AppSpec,
     pub conns: Vec<Vec<Req>>,
+    /// another application lived (and was dropped) earlier in the same process and on the same thread: the same routes,
+    /// other fangs and handlers (every id + 1000), asked for the same paths through the in-process testing API.
+    /// Whatever routing remembers across requests must not outlive the application it belongs to.
+    #[serde(default)]
+    pub previous: bool,
+}
+
+fn shifted(app: &AppSpec, by: u32) -> AppSpec {
+    let fs = |f: &appgen::FangSpec| appgen::FangSpec { id: f.id + by, ..f.clone() };
+    AppSpec {
+        id: app.id + by,
+        fangs: app.fangs.iter().map(fs).collect(),
+        items: app
+            .items
+            .iter()
+            .map(|it| match it {
+                appgen::Item::Routes { path, methods } => appgen::Item::Routes {
+                    path: path.clone(),
+                    methods: methods.iter().map(|(m, h)| (m.clone(), appgen::HandlerSpec { id: h.id + by, n_params: h.n_params, local_fangs: h.local_fangs.iter().map(fs).collect() })).collect(),
+                },
+                appgen::Item::Mount { prefix, app } => appgen::Item::Mount { prefix: prefix.clone(), app: shifted(app, by) },
+            })
+            .collect(),
+    }
 }
 
 fn all_fangs(app: &AppSpec, out: &mut Vec<u32>) {
@@ -67,7 +91,7 @@ pub fn generate(_cfg: &RunCfg, _out: &mut Outcome) -> Scenario {
                 .collect()
         })
         .collect();
-    Scenario { app, conns }
+    Scenario { app, conns, previous: t::chance(1, 4) }
 }
 
 pub fn run(cfg: &RunCfg, direct: Option<&serde_json::Value>) -> Outcome {
@@ -143,6 +167,31 @@ fn execute(sc: &Scenario, out: &mut Outcome) {
             if sc.conns.iter().flatten().any(|r| r.kind == "under-mount-prefix") {
                 out.probe("c04.request_under_a_mount_prefix_with_fang_only_app");
             }
+        }
+    }
+    if sc.previous {
+        out.probe("c04.another_application_lived_earlier");
+        let prev = std::panic::catch_unwind(std::panic::AssertUnwindSafe(|| appgen::build(&shifted(&sc.app, 1000))));
+        if let Ok(prev) = prev {
+            use ohkami::testing::{TestRequest, Testing};
+            let asked: Vec<(String, String)> = sc.conns.iter().flatten().map(|r| (r.method.clone(), r.path.clone())).collect();
+            simcore::spawn_task("previous-app", "client", async move {
+                let tester = prev.test();
+                for (m, p) in asked {
+                    let req = match m.as_str() {
+                        "GET" => TestRequest::GET(p.clone()),
+                        "PUT" => TestRequest::PUT(p.clone()),
+                        "POST" => TestRequest::POST(p.clone()),
+                        "PATCH" => TestRequest::PATCH(p.clone()),
+                        "DELETE" => TestRequest::DELETE(p.clone()),
+                        "HEAD" => TestRequest::HEAD(p.clone()),
+                        _ => TestRequest::OPTIONS(p.clone()),
+                    };
+                    let _ = tester.oneshot(req).await;
+                }
+                drop(tester);
+            });
+            let _ = simcore::run();
         }
     }
     let built = std::panic::catch_unwind(std::panic::AssertUnwindSafe(|| appgen::build(&sc.app)));
